@@ -3,6 +3,9 @@
    line per case.  No logic of its own beyond (de)serialisation. *)
 open Model
 
+(* the extracted model contains Coq's own string type (literals of Model/Gen.v): keep OCaml's names *)
+type string = Stdlib.String.t
+
 let rec pos_of_int n =
   if n = 1 then XH
   else if n land 1 = 1 then XI (pos_of_int (n lsr 1))
@@ -663,6 +666,11 @@ let handle (cmd : string) (line : string) : string =
          outs := ("recv=" ^ show_recv r) :: !outs
        done;
        String.concat " ; " (List.rev !outs))
+  | "gen-run", [h] ->
+    (match generate (bytes_of_hex h) with
+     | GOk (pk, t) -> "OK " ^ hex_of_bytes pk ^ " " ^ hex_of_bytes t
+     | GParseErr -> "PARSEERR"
+     | GPanic -> "PANIC")
   | "wire-run", cap :: chunks :: ops -> wire_run (int_of_string cap) chunks ops
   | _ -> failwith ("bad case for " ^ cmd ^ ": " ^ line)
 
